@@ -142,8 +142,41 @@ func run(raw json.RawMessage) (common.Case, error) {
 	vals := map[string]bool{}
 	nchunks := 0
 	for i := range in.Series {
+		in.Series[i].Labels = normLabels(in.Series[i].Labels)
+	}
+	if in.Kind == "block" {
+		// an index holds non-empty label sets with at least one chunk, in label order, once each
+		var keep []seriesIn
+		seen := map[string]bool{}
+		for _, se := range in.Series {
+			var chs [][][2]int64
+			for _, ch := range se.Chunks {
+				if len(ch) > 0 {
+					chs = append(chs, ch)
+				}
+			}
+			k := fmt.Sprint(se.Labels)
+			if len(chs) == 0 || len(se.Labels) == 0 || seen[k] {
+				continue
+			}
+			seen[k] = true
+			se.Chunks = chs
+			keep = append(keep, se)
+		}
+		toLabels := func(ls [][2]string) labels.Labels {
+			var out []labels.Label
+			for _, l := range ls {
+				out = append(out, labels.Label{Name: l[0], Value: l[1]})
+			}
+			return labels.New(out...)
+		}
+		sort.Slice(keep, func(a, b int) bool { return labels.Compare(toLabels(keep[a].Labels), toLabels(keep[b].Labels)) < 0 })
+		in.Series = keep
+	}
+	var blockMetas [][]chunks.Meta
+	var blockLsets []labels.Labels
+	for i := range in.Series {
 		s := &in.Series[i]
-		s.Labels = normLabels(s.Labels)
 		var ls []labels.Label
 		for _, l := range s.Labels {
 			ls = append(ls, labels.Label{Name: l[0], Value: l[1]})
@@ -169,6 +202,8 @@ func run(raw json.RawMessage) (common.Case, error) {
 		}
 		lset := labels.New(ls...)
 		ms := metas
+		blockMetas = append(blockMetas, metas)
+		blockLsets = append(blockLsets, lset)
 		css = append(css, &storage.ChunkSeriesEntry{Lset: lset, ChunkIteratorFn: func(chunks.Iterator) chunks.Iterator {
 			return storage.NewListChunkSeriesIterator(ms...)
 		}})
@@ -212,40 +247,59 @@ func run(raw json.RawMessage) (common.Case, error) {
 		reqs = append(reqs, metadata.DeletionRequest{Matchers: ms, Intervals: ivs})
 		coqReqs = append(coqReqs, common.Pair(common.List(cm), common.List(civ)))
 	}
-	lg := &nopLog{}
-	_, set := compactv2.WithDeletionModifier(reqs...).Modify(nil, &listSet{ss: css, idx: -1}, lg, lg)
 	var outs []outSeries
 	var coqOut []string
 	failed := false
-	for set.Next() {
-		s := set.At()
-		os := outSeries{}
-		s.Labels().Range(func(l labels.Label) { os.Labels = append(os.Labels, [2]string{l.Name, l.Value}) })
-		it := s.Iterator(nil)
-		var cchunks []string
-		for it.Next() {
-			m := it.At()
-			oc := outChunk{Min: m.MinTime, Max: m.MaxTime}
-			sit := m.Chunk.Iterator(nil)
-			for sit.Next() != chunkenc.ValNone {
-				t, v := sit.At()
-				oc.Samples = append(oc.Samples, [2]int64{t, int64(v)})
-			}
-			os.Chunks = append(os.Chunks, oc)
-			cchunks = append(cchunks, common.Tuple(common.Z(oc.Min), common.Z(oc.Max), coqSamples(oc.Samples)))
+	if in.Kind == "block" {
+		var err error
+		outs, failed, err = rewriteBlock(blockLsets, blockMetas, reqs)
+		if err != nil {
+			return c, err
 		}
-		if it.Err() != nil {
+		for _, os := range outs {
+			var cchunks []string
+			for _, oc := range os.Chunks {
+				cchunks = append(cchunks, common.Tuple(common.Z(oc.Min), common.Z(oc.Max), coqSamples(oc.Samples)))
+			}
+			coqOut = append(coqOut, common.Pair(coqLabels(os.Labels), common.List(cchunks)))
+		}
+	} else {
+		lg := &nopLog{}
+		_, set := compactv2.WithDeletionModifier(reqs...).Modify(nil, &listSet{ss: css, idx: -1}, lg, lg)
+		for set.Next() {
+			s := set.At()
+			os := outSeries{}
+			s.Labels().Range(func(l labels.Label) { os.Labels = append(os.Labels, [2]string{l.Name, l.Value}) })
+			it := s.Iterator(nil)
+			var cchunks []string
+			for it.Next() {
+				m := it.At()
+				oc := outChunk{Min: m.MinTime, Max: m.MaxTime}
+				sit := m.Chunk.Iterator(nil)
+				for sit.Next() != chunkenc.ValNone {
+					t, v := sit.At()
+					oc.Samples = append(oc.Samples, [2]int64{t, int64(v)})
+				}
+				os.Chunks = append(os.Chunks, oc)
+				cchunks = append(cchunks, common.Tuple(common.Z(oc.Min), common.Z(oc.Max), coqSamples(oc.Samples)))
+			}
+			if it.Err() != nil {
+				failed = true
+			}
+			outs = append(outs, os)
+			coqOut = append(coqOut, common.Pair(coqLabels(os.Labels), common.List(cchunks)))
+		}
+		if set.Err() != nil {
 			failed = true
 		}
-		outs = append(outs, os)
-		coqOut = append(coqOut, common.Pair(coqLabels(os.Labels), common.List(cchunks)))
 	}
-	if set.Err() != nil {
-		failed = true
+	ctor := "CDel"
+	if in.Kind == "block" {
+		ctor = "CBlock"
 	}
-	c.Coq = common.App("CDel", common.List(coqReqs), common.List(rt), common.List(coqSeries), common.List(coqOut), common.Bool(failed))
+	c.Coq = common.App(ctor, common.List(coqReqs), common.List(rt), common.List(coqSeries), common.List(coqOut), common.Bool(failed))
 	c.Obs = map[string]any{"series": outs, "error": failed}
-	c.Class = fmt.Sprintf("reqs=%d", len(in.Reqs))
+	c.Class = fmt.Sprintf("%sreqs=%d", map[bool]string{true: "block/", false: ""}[in.Kind == "block"], len(in.Reqs))
 	c.Nontrivial = len(in.Reqs) >= 1 && nchunks >= 2 && nIntervals >= 1
 	// Go-side predicate (search aid): per input series, surviving samples = samples outside the
 	// intervals of the requests that apply; series with an applying interval-less request vanish.
@@ -305,6 +359,9 @@ func run(raw json.RawMessage) (common.Case, error) {
 			}
 			continue
 		}
+		if in.Kind == "block" && !present && len(want) == 0 {
+			continue // a series left without samples is not written
+		}
 		if fmt.Sprint(g) != fmt.Sprint(want) && c.GoPred == "" {
 			if len(g) < len(want) {
 				c.GoPred = fmt.Sprintf("series %v: samples outside the requested intervals were removed (kept %d of %d)", s.Labels, len(g), len(want))
@@ -316,6 +373,127 @@ func run(raw json.RawMessage) (common.Case, error) {
 		}
 	}
 	return c, nil
+}
+
+// rewriteBlock writes the series into a real TSDB block (explicit chunk layout),
+// runs Compactor.WriteSeries with the deletion modifier into a new block and
+// reads the new block back.
+func rewriteBlock(lsets []labels.Labels, metas [][]chunks.Meta, reqs []metadata.DeletionRequest) ([]outSeries, bool, error) {
+	ctx := context.Background()
+	logger := log.NewNopLogger()
+	tmp, err := os.MkdirTemp("", "c48")
+	if err != nil {
+		return nil, false, err
+	}
+	defer os.RemoveAll(tmp)
+	id1 := ulid.MustNew(1, nil)
+	bdir := filepath.Join(tmp, id1.String())
+	if err := os.MkdirAll(bdir, 0o777); err != nil {
+		return nil, false, err
+	}
+	// source block
+	d, err := block.NewDiskWriter(ctx, logger, bdir)
+	if err != nil {
+		return nil, false, err
+	}
+	symbols := map[string]struct{}{}
+	for _, ls := range lsets {
+		ls.Range(func(l labels.Label) {
+			symbols[l.Name] = struct{}{}
+			symbols[l.Value] = struct{}{}
+		})
+	}
+	var syms []string
+	for s := range symbols {
+		syms = append(syms, s)
+	}
+	sort.Strings(syms)
+	for _, s := range syms {
+		if err := d.AddSymbol(s); err != nil {
+			return nil, false, err
+		}
+	}
+	for i, ls := range lsets {
+		if err := d.WriteChunks(metas[i]...); err != nil {
+			return nil, false, err
+		}
+		if err := d.AddSeries(storage.SeriesRef(i), ls, metas[i]...); err != nil {
+			return nil, false, err
+		}
+	}
+	if _, err := d.Flush(); err != nil {
+		return nil, false, err
+	}
+	if err := (metadata.Meta{BlockMeta: tsdb.BlockMeta{Version: 1, ULID: id1}}).WriteToDir(logger, bdir); err != nil {
+		return nil, false, err
+	}
+	pool := chunkenc.NewPool()
+	b, err := tsdb.OpenBlock(logutil.GoKitLogToSlog(logger), bdir, pool, nil)
+	if err != nil {
+		return nil, false, err
+	}
+	defer b.Close()
+	// rewrite
+	id2 := ulid.MustNew(2, nil)
+	ndir := filepath.Join(tmp, id2.String())
+	w, err := block.NewDiskWriter(ctx, logger, ndir)
+	if err != nil {
+		return nil, false, err
+	}
+	lg := &nopLog{}
+	comp := compactv2.New(tmp, logger, lg, pool)
+	if err := comp.WriteSeries(ctx, []block.Reader{b}, w, compactv2.NewProgressLogger(logger, len(lsets)), compactv2.WithDeletionModifier(reqs...)); err != nil {
+		_, _ = w.Flush()
+		return nil, true, nil
+	}
+	if err := os.MkdirAll(ndir, 0o777); err != nil {
+		return nil, false, err
+	}
+	if _, err := w.Flush(); err != nil {
+		return nil, true, nil
+	}
+	// read back
+	indexr, err := index.NewFileReader(filepath.Join(ndir, block.IndexFilename), index.DecodePostingsRaw)
+	if err != nil {
+		return nil, false, err
+	}
+	defer indexr.Close()
+	chunkr, err := chunks.NewDirReader(filepath.Join(ndir, block.ChunksDirname), nil)
+	if err != nil {
+		return nil, false, err
+	}
+	defer chunkr.Close()
+	k, v := index.AllPostingsKey()
+	all, err := indexr.Postings(ctx, k, v)
+	if err != nil {
+		return nil, false, err
+	}
+	all = indexr.SortedPostings(all)
+	var builder labels.ScratchBuilder
+	var chks []chunks.Meta
+	var outs []outSeries
+	for all.Next() {
+		if err := indexr.Series(all.At(), &builder, &chks); err != nil {
+			return nil, false, err
+		}
+		os := outSeries{}
+		builder.Labels().Range(func(l labels.Label) { os.Labels = append(os.Labels, [2]string{l.Name, l.Value}) })
+		for _, cm := range chks {
+			ch, _, err := chunkr.ChunkOrIterable(cm)
+			if err != nil {
+				return nil, false, err
+			}
+			oc := outChunk{Min: cm.MinTime, Max: cm.MaxTime}
+			it := ch.Iterator(nil)
+			for it.Next() != chunkenc.ValNone {
+				t, v := it.At()
+				oc.Samples = append(oc.Samples, [2]int64{t, int64(v)})
+			}
+			os.Chunks = append(os.Chunks, oc)
+		}
+		outs = append(outs, os)
+	}
+	return outs, false, all.Err()
 }
 
 // ---- generators ----
@@ -406,6 +584,9 @@ func gen(r *rand.Rand, tier string, n int) []any {
 				}
 			}
 			in.Reqs = append(in.Reqs, rq)
+		}
+		if r.Intn(7) == 0 {
+			in.Kind = "block"
 		}
 		out = append(out, in)
 	}
